@@ -1621,5 +1621,6 @@ pub fn gen_case(rng: Rng, knobs: &Knobs) -> Case {
         continue_after_error: rng.chance(knobs.continue_pct as u64, 100),
         source_override: None,
         dig_file: None,
+        thread_seed: None,
     }
 }
